@@ -146,6 +146,8 @@ def sql_world():
         LeafSpec("Y", s, ABC, YROWS),
         LeafSpec("K", s, ("a", "d"), KROWS),
         LeafSpec("K2", s, ("b", "d2"), K2ROWS),
+        LeafSpec("Kb", s, ("a", "d"), ((1, 70), (2, 80), (3, 90))),
+        LeafSpec("Etwin", s, ABC, XROWS, leaf_name="E"),  # compares equal to E (bounds and payload are not compared)
         LeafSpec("E", s, ABC, (), min_rows=0, max_rows=0),
         LeafSpec("Eloose", s, ABC, (), min_rows=0, max_rows=3),
         LeafSpec("D0", s, ABC, (), special="doomed"),
@@ -168,7 +170,7 @@ SQL_SORT = (
     S((R("x"), ASC), (R("c"), DESC)),
     S(),
 )
-SQL_SLICE = tuple(("slice", s, e) for s, e in ((0, 1), (1, 3), (2, None), (0, 0), (0, None), (3, 5)))
+SQL_SLICE = tuple(("slice", s, e) for s, e in ((0, 1), (1, 3), (2, None), (0, 0), (0, None), (3, 5), (1, 2)))
 SQL_CHAIN = (
     ("chain", ("self",)),
     ("chain", ("Y",)),
@@ -194,6 +196,9 @@ SQL_JOIN = (
     ("join", ("self", ("sel", P_A_GT_1), ("calc", "y", A_MINUS_C)), None, False),
     ("join", ("K", ("proj", ("d",))), ("gt", R("d"), L(100)), False),
     ("join", ("K", ("proj", ("d",))), None, True),
+    ("join", ("self",), None, False),
+    ("join", ("Kb", ("proj", ("a",))), None, False),
+    ("join", ("Kb", ("proj", ("a",))), None, True),
 )
 SQL_OTHER = (("dedup",), ("mat", "m1"))
 SQL_FULL = SQL_CALC + SQL_PROJ + SQL_SEL + SQL_SORT + SQL_SLICE + SQL_CHAIN + SQL_JOIN + SQL_OTHER
@@ -219,6 +224,19 @@ SQL_REDUCED = (
     ("mat", "m1"),
 )
 SQL_ROOTS_ALL = ("X", "Xloose", "Xunb", "X1", "E", "Eloose")
+
+# tiny alphabet for deep sort/slice/dedup/projection interplay (depth 5-6)
+SQL_MINI = (
+    ("dedup",),
+    ("proj", ("a", "b")),
+    ("proj", ("b", "c")),
+    S((R("c"), ASC), (R("a"), ASC), (R("b"), ASC)),
+    S((R("b"), DESC), (R("a"), ASC)),
+    S((R("a"), ASC), (R("b"), ASC)),
+    ("slice", 0, 4),
+    ("slice", 1, 3),
+    ("slice", 1, 2),
+)
 
 
 # ------------------------------------------------------------------ wider operand pool (C08)
@@ -249,7 +267,9 @@ SQL_ORDER = (
     S((R("a"), ASC)),
     S((R("b"), ASC), (R("c"), DESC), (R("a"), DESC)),
     S((R("x"), ASC), (R("c"), DESC)),
+    S((R("a"), ASC), (R("b"), ASC), (R("c"), ASC)),
     ("slice", 0, 1),
+    ("slice", 1, 2),
     ("slice", 1, 3),
     ("slice", 2, None),
     ("slice", 0, 4),
@@ -372,6 +392,9 @@ MULTI_JOIN = (
     ("join", ("K",), None, False, ("a",)),
     pe(("join", ("K",), None, False, ("a",)), "s", True, True, False),
     ("join", ("K",), ("or", ("only", "iteration", P_A_GT_1), P_TRUE), False),
+    ("join", ("I1",), None, False),
+    ("join", ("IS",), None, False),
+    ("join", ("IS",), None, True),
 )
 MULTI_FULL = MULTI_PLAIN + MULTI_PE + MULTI_JOIN
 
